@@ -40,6 +40,29 @@ class _SymbolicExpressionContainer(typing_extensions.Protocol[T_cov]):
         ...  # pragma: no cover
 
 
+def _insert_all(
+    insert: typing.Callable[[T], typing.Any], values: typing.Iterable[T]
+) -> None:
+    """Pass every value of ``values`` to ``insert``, but only after ``values``
+    has been consumed completely.
+
+    Inserting a node into an owning collection removes it from the collection
+    that owned it before. When ``values`` is that collection, or walks it
+    lazily (``ir.modules.extend(m for m in other_ir.modules if ...)``), this
+    would change it in the middle of the iteration: a list silently skips
+    every second element and a set raises ``RuntimeError``. Whatever was
+    produced before ``values`` itself failed is still inserted, as
+    ``list.extend`` and ``set.update`` do.
+    """
+    pending: typing.List[T] = []
+    try:
+        for value in values:
+            pending.append(value)
+    finally:
+        for value in pending:
+            insert(value)
+
+
 class ListWrapper(typing.MutableSequence[T]):
     def __init__(self, *args: typing.Iterable[T]):
         self._data: typing.List[T] = []
@@ -150,14 +173,7 @@ class ListWrapper(typing.MutableSequence[T]):
     # extend is not in every version of Python 3, so list wrapper adds it here
     # itself.
     def extend(self, other: typing.Iterable[T]) -> None:
-        if isinstance(other, ListWrapper):
-            # Take a snapshot first: when ``other`` is another owning list
-            # (e.g. ``ir.modules.extend(other_ir.modules)``), appending a
-            # value removes it from ``other`` while ``other`` is being
-            # iterated, and every second element would be skipped.
-            other = list(other)
-        for v in other:
-            self.append(v)
+        _insert_all(self.append, other)
 
     # end functions for ABC
     def __str__(self) -> str:
@@ -230,12 +246,7 @@ class SetWrapper(typing.MutableSet[T]):
     def __ior__(  # type: ignore
         self: _SetWrapperSelf, other: typing.AbstractSet[T]
     ) -> _SetWrapperSelf:
-        if isinstance(other, SetWrapper):
-            # Snapshot: adding a value owned by ``other`` removes it from
-            # ``other`` while ``other`` is being iterated.
-            other = set(other)
-        for value in other:
-            self.add(value)
+        _insert_all(self.add, other)
         return self
 
     def __ixor__(  # type: ignore
@@ -265,12 +276,7 @@ class SetWrapper(typing.MutableSet[T]):
     # For whatever reason, update isn't included as part of abc.MutableSet.
     def update(self, *others: typing.Iterable[T]) -> None:
         for other in others:
-            if isinstance(other, SetWrapper):
-                # Snapshot: the elements of another owning set leave it as
-                # they are added here.
-                other = set(other)
-            for v in other:
-                self.add(v)
+            _insert_all(self.add, other)
 
     def __str__(self) -> str:
         return str(self._data)
